@@ -649,6 +649,24 @@ def coq_heap(nodes, a, b, sa, sb) -> str:
     return f'export_ok {lit} {a}%positive {b}%positive {pl(sa)} {pl(sb)}'
 
 
+def coq_eval_parallel(ck: Ck, exprs: list[str], name: str, per_process: int, workers: int = 4) -> list[str] | None:
+    """ck.coq_eval over chunks of `per_process` expressions, up to `workers` coqc processes at a time (each chunk is an
+    independent scratch file; the kernel work per heap is the same, the wall time of the phase is divided).  None when
+    any chunk could not be evaluated."""
+    from concurrent.futures import ThreadPoolExecutor
+    chunks = [exprs[lo:lo + per_process] for lo in range(0, len(exprs), per_process)]
+    if not chunks:
+        return []
+
+    def one(k: int) -> list[str] | None:
+        return ck.coq_eval(IMPORTS, chunks[k], name=f'{name}{k}', preamble='Import ListNotations.\n', timeout=900)
+    with ThreadPoolExecutor(max_workers=workers) as ex:
+        parts = list(ex.map(one, range(len(chunks))))
+    if any(p is None for p in parts):
+        return None
+    return [v for p in parts for v in p]        # type: ignore[union-attr]
+
+
 def cert_cases(ck: Ck) -> None:
     """Export original+copy object graphs of real objects and let the kernel check the separation certificate
     (the premise of c09_export_ok_independent)."""
@@ -677,13 +695,7 @@ def cert_cases(ck: Ck) -> None:
         ck.hist('certificate_heap_nodes', len(nodes) // 50 * 50)
         if len(nodes) >= 4:
             ck.seen(('cert', kind, seed, variant))
-    vals: list[str] | None = []
-    for lo in range(0, len(exprs), 55):
-        part = ck.coq_eval(IMPORTS, exprs[lo:lo + 55], name='cert', preamble='Import ListNotations.\n', timeout=900)
-        if part is None:
-            vals = None
-            break
-        vals += part
+    vals = coq_eval_parallel(ck, exprs, 'cert', 14 if not ck.thorough else 55)
     if vals is None:
         ck.obligation('certificate:export_ok', False, 'exported heaps could not be evaluated by coqc')
         ck.tie_broken.append('certificate evaluation failed')
@@ -843,13 +855,7 @@ def cert_rows(ck: Ck, side: dict, eside: dict) -> None:
             ck.hist('row_certificate_label', lab)
             ck.hist('row_certificate_depth', depth)
             ck.seen(('rowcert', lab, seed))
-    vals: list[str] | None = []
-    for lo in range(0, len(exprs), 80):
-        part = ck.coq_eval(IMPORTS, exprs[lo:lo + 80], name='rowcert', preamble='Import ListNotations.\n', timeout=900)
-        if part is None:
-            vals = None
-            break
-        vals += part
+    vals = coq_eval_parallel(ck, exprs, 'rowcert', 15 if not ck.thorough else 60)
     if vals is None:
         ck.obligation('certificate:census_rows_hold', False, 'exported heaps could not be evaluated by coqc')
         ck.obligation('certificate:export_rows_hold', False, 'exported heaps could not be evaluated by coqc')
